@@ -7,7 +7,31 @@ TRUSTED_BASE = [
     "T5 machine arithmetic is NOT treated as mathematical: Verus checks overflow on every executable operation",
 ]
 
+BASE_VERIFY_FNS = ["verify_label", "verify_existence", "verify_existence_with_val", "verify_existence_with_commitment", "verify_nonexistence",
+                   "verify_membership", "verify_nonmembership", "NodeLabel.value", "NodeLabel.root", "NodeLabel.new"]
+
 PROPS = {
+    "C07": {
+        "verus": ["verify_history", ("verify_base", BASE_VERIFY_FNS)],
+        "verus_thorough": ["node_label", "markers"],
+        "scope": "verifier side: key_history_verify Ok ==> non-empty, consecutive decreasing versions, start/end/parameter rules, marker lists = get_marker_versions(start, end, epoch) "
+                 "with matching proof counts, results = the proofs' own (epoch, version, value) in order, non-increasing epochs, every update accepted (fresh leaf with value/epoch "
+                 "commitment; previous version's stale leaf stamped with THIS update's epoch), every past marker shown present and every future marker shown absent; "
+                 "the value check is skipped only in AllowMissingValues mode for an empty value. Ground truth of the honest history is not decided.",
+        "trusted": ["T4 ECVRF and configuration hashes as in C06", "get_marker_versions is a function of its arguments (determinism); what it contains is proved under C08",
+                    "desugarings R-FMT, R-FOREACH, R-ENUM, R-UNDERSCORE applied to verify_with_history_params / key_history_verify (syntax only; listed in desugarings_applied)"],
+        "assumed": ["attacker-supplied versions are < u64::MAX (precondition; curr_version + 1 would overflow otherwise: debug panic / release wrap, outcome still Err) - DESIGN D8"],
+    },
+    "C06": {
+        "verus": ["verify_lookup", ("verify_base", BASE_VERIFY_FNS)],
+        "verus_thorough": ["node_label", "markers"],
+        "scope": "verifier control-flow soundness: lookup_verify Ok ==> version <= epoch, the result triple equals the proof's fields, and the three sub-proofs "
+                 "were accepted for exactly (Fresh, v) with the value/epoch commitment, (Fresh, 2^floor(log2 v)) and (Stale, v) non-membership under the same key/root/label. "
+                 "What the honest tree contains (the histories quantifier) is not decided.",
+        "trusted": ["T4 ECVRF (ecvrf_impl.rs) as three opaque notions: parse, accept, truncated output; configuration hashes uninterpreted",
+                    "meaning step (VRF uniqueness + collision resistance => 'tree contains / does not contain') is the standard argument, not machine-checked"],
+        "assumed": [],
+    },
     "C05": {
         "verus": [("verify_base", ["verify_membership", "verify_nonmembership", "NodeLabel.value", "NodeLabel.root", "NodeLabel.new"])],
         "verus_thorough": ["node_label"],
